@@ -388,3 +388,86 @@ def c12_f(ctx):
                   'update_distance() < generate(with_values=...)',
                   'distances are recomputed before the distance node was updated', fn=f,
                   node=gen[0] if gen else f.node)
+
+
+@obligation('C12-g', 'T3 T11', 'every consumed batch feeds all its summary rows to the adaptive '
+            'scale, in the distance\'s own column order', floor=4,
+            necessary='rows that are fed only when something was accepted (or columns in another '
+                      'order) make the scale depend on batching / divide a summary by another '
+                      'summary\'s deviation')
+def c12_g(ctx):
+    cls = ctx.cls(C01.REJ)
+    upd = ctx.own_method(cls, 'update')
+    feeders = [f for f in ctx.reachable([upd], depth=2, may=False)
+               if f.cls is not None and cls.is_subclass_of(f.cls) and
+               ctx.calls(f, name='add_data')]
+    if not feeders:
+        raise AnchorMissing('no function reachable from Rejection.update feeds add_data')
+    for f in feeders:
+        ex = ctx.ex(f)
+        for c in ctx.calls(f, name='add_data'):
+            ok = ctx.only_guarded_by(f, c, ('self.adaptive',), at_most=1) and \
+                bool(ctx.guard_groups(f, c)) and enclosing_loop(c) is None
+            ctx.check(ok, f, 'fed for every batch of an adaptive run',
+                      'add_data(...) guarded by self.adaptive only',
+                      'the adaptation data of a batch are added only under an additional '
+                      'condition (e.g. only when something was accepted)', fn=f, node=c)
+            st = [a for a in c.args if isinstance(a, ast.Starred)]
+            t = ex.term(st[0].value) if st else None
+            okc = t is not None and t[0] == 'comp' and \
+                match(t[3][0][0], pattern('self.sums')) is not None and not t[3][0][1] and \
+                t[2] == ('sub', ('param', f.params[1]), ('elem', t[3][0][0], t[2][2][2])
+                         if t[2][0] == 'sub' and t[2][2][0] == 'elem' else None)
+            ctx.check(okc, f, 'all rows of the batch, one column block per summary',
+                      'add_data(*[batch[s] for s in self.sums])',
+                      'the adaptation data are {} - not the unmasked batch outputs of every '
+                      'summary in self.sums order'.format(show(t)[:100] if t else None), fn=f,
+                      node=c)
+            recv = ex.term(c.func.value)
+            ctx.check(match(recv, pattern('self.model[self.discrepancy_name]')) is not None, f,
+                      'fed to the sampler\'s own distance node',
+                      'self.model[self.discrepancy_name].add_data', 'the data are added to '
+                      'another node', fn=f, node=c)
+        # on every path of update the feeder runs
+        cs = [c for c in ctx.calls(upd) if f in ctx.cg.resolve(upd, c)]
+        if f is not upd:
+            ok = bool(cs) and cfg_of(upd).must_pass([ctx.node(upd, c) for c in cs])
+            ctx.check(ok, upd, 'feeder reached for every batch', '', 'update can return without '
+                      'feeding the adaptive distance', fn=upd, node=cs[0] if cs else upd.node)
+    # self.sums is the positional parent order of the distance node (the order in which the
+    # node itself column-stacks its summaries)
+    n = 0
+    for c in [cls] + cls.all_subclasses():
+        for m in c.methods.values():
+            for (s, t, k) in ctx.stores(m, 'self.sums'):
+                if not isinstance(s, ast.Assign):
+                    continue
+                n += 1
+                v = ctx.term(m, s.value)
+                ok = v[0] == 'comp' and v[1] == 'list' and len(v[3]) == 1 and not v[3][0][1] and \
+                    match(v[3][0][0], pattern('_m[_d].parents')) is not None and \
+                    v[2] == ('attr', ('elem', v[3][0][0], v[2][1][2]), 'name') \
+                    if (v[0] == 'comp' and v[2][0] == 'attr' and v[2][1][0] == 'elem') else False
+                ctx.check(ok, m, 'summary order is the parent order of the distance',
+                          'self.sums = [p.name for p in model[d].parents]',
+                          'self.sums is {} - not the names of the distance\'s parents in parent '
+                          'order'.format(show(v)[:100]), fn=m, node=s)
+    if n < 1:
+        raise AnchorMissing('self.sums is never assigned')
+    # the recomputation hands the rows over by name (order-free)
+    ext = ctx.own_method(cls, 'extract_result')
+    for f in ctx.reachable([ext], depth=2, may=False):
+        if f.cls is None or not cls.is_subclass_of(f.cls):
+            continue
+        exf = ctx.ex(f)
+        for c in ctx.calls(f, name='generate'):
+            kws = dict((k.arg, exf.term(k.value)) for k in c.keywords)
+            wv = kws.get('with_values')
+            if wv is None:
+                continue
+            ok = wv[0] == 'comp' and wv[1] == 'dict' and \
+                match(wv[3][0][0], pattern('self.sums')) is not None
+            ctx.check(ok, f, 'recomputation is given every summary by name',
+                      '{s: samples[s][:n] for s in self.sums}',
+                      'the distance is not recomputed from all summaries in self.sums', fn=f,
+                      node=c)
